@@ -8,7 +8,7 @@ Theorem C12_entry_roundtrip :
   forall c e s (es : list dyn_entry) j d,
     Inv s -> contents s = concat (map (dyn_enc c e) es) ->
     sh_entsize s = dyn_esz c -> sh_size s < 2 ^ 61 ->
-    nth_optN es j = Some d -> de_tag d < 2 ^ 31 ->
+    nth_optN es j = Some d -> de_tag d < 2 ^ (xw c - 1) ->
     dyn_raw_core c e s (s_data s) j = Ok (dyn_view c d).
 Proof. exact dyn_raw_roundtrip. Qed.
 Print Assumptions C12_entry_roundtrip.
@@ -19,7 +19,7 @@ Theorem C12_count_upto_first_null :
   forall c e s (es : list dyn_entry) fuel,
     Inv s -> contents s = concat (map (dyn_enc c e) es) ->
     sh_entsize s = dyn_esz c -> sh_size s < 2 ^ 61 ->
-    Forall (fun d => de_tag d < 2 ^ 31) es -> lenN es < lenN fuel ->
+    Forall (fun d => de_tag d < 2 ^ (xw c - 1)) es -> lenN es < lenN fuel ->
     exists i, dyn_count_core fuel c e s (s_data s) 0 (lenN es) = Ok i /\
       N.min (lenN es) (i + 1) = N.min (lenN es) (first_null es + 1) /\
       N.min (lenN es) (i + 1) <= lenN es.
@@ -42,3 +42,16 @@ Print Assumptions C12_add_invalidates_cache.
 Example C12_example :
   first_null [mkDynEntry 1 5; mkDynEntry 0 0; mkDynEntry 14 9] = 1.
 Proof. reflexivity. Qed.
+
+(* non-vacuity for the 64-bit tag width (the bound above is 2^63 there): an ELF64 table whose first entry has the tag
+   2^32 - non-zero, with zero low 32 bits - followed by DT_NEEDED and DT_NULL: the first entry is read back with its tag,
+   and the count stops at the real DT_NULL (index 2), not at the first entry *)
+Definition ex_wide : list dyn_entry := [mkDynEntry 4294967296 7; mkDynEntry 1 5; mkDynEntry 0 0].
+Definition ex_wide_sec : section :=
+  let d := concat (map (dyn_enc C64 LSB) ex_wide) in
+  with_entsize (with_size (with_data (with_type (new_section C64) 6) (Some d) (lenN d)) (lenN d)) 16.
+Example C12_wide_tag_example :
+  dyn_raw_core C64 LSB ex_wide_sec (s_data ex_wide_sec) 0 = Ok (4294967296, 7) /\
+  dyn_count_core [0; 0; 0; 0] C64 LSB ex_wide_sec (s_data ex_wide_sec) 0 3 = Ok 2 /\
+  Forall (fun d => de_tag d < 2 ^ (xw C64 - 1)) ex_wide.
+Proof. split; [vm_compute; reflexivity|]. split; [vm_compute; reflexivity|]. repeat constructor; vm_compute; reflexivity. Qed.
